@@ -282,6 +282,7 @@ func main() {
 			time.Sleep(10 * time.Millisecond)
 		}
 		time.Sleep(60 * time.Millisecond)
+		left := len(ch) // receipts nobody took out of the queue although the forwarder had five seconds and a service that answers
 		cancel()
 		if mode != "down" {
 			srv.Close()
@@ -312,6 +313,9 @@ func main() {
 		}
 		if blocked > 0 {
 			verdict, detail = "submission-blocked", fmt.Sprintf("%d submissions did not return within 2s", blocked)
+		}
+		if mode != "down" && verdict == "ok" && left > 0 {
+			verdict, detail = "receipt-worker-stopped", fmt.Sprintf("%d receipts are still in the queue five seconds after the last submission: the forwarder no longer takes them out (every later receipt of any client will be refused once the queue is full)", left)
 		}
 		if mode != "down" && verdict == "ok" {
 			if len(forwarded) != len(expect) {
